@@ -212,6 +212,9 @@ func (st *wstate) checkClean(i int, l *scen.Lifetime, lf *model.Life, rep *scen.
 					}
 				}
 				props := []string{"C09"}
+				if listedT[id] > 0 {
+					props = append(props, "C20") // listed, but fewer times than there are stale entries with this id
+				}
 				if j := strings.LastIndex(id, " - "); j >= 0 {
 					for _, sk := range rep.SkipCalls {
 						if strings.HasPrefix(id[:j], sk) {
@@ -363,7 +366,7 @@ func (st *wstate) checkDisk(i int, l *scen.Lifetime, lf *model.Life, after world
 		if plan != nil && touched[path] {
 			if id != "" {
 				if p, ok := plan.KeepTests[path+"\x00"+id]; ok {
-					return []string{p}
+					return uniq([]string{p, "C10"}) // a rewrite by Clean dropped an entry that had to survive
 				}
 			}
 			if p, ok := plan.KeepFiles[path]; ok && id == "" {
